@@ -263,7 +263,7 @@ def c08(req, obs):
                 elif not (t == "accountDoesNotExist" and kind in LEGIT_ADNE):
                     attempt_failed_at = (kind, cls, ans, e["path"], e.get("payload_b64"))
                     fatal_seen = (kind, cls, ans)
-            elif e["method"] == "POST" and ans.startswith("errbody:") and not e.get("rejected"):
+            elif e["method"] == "POST" and ans.startswith(("errbody:", "status:")) and not e.get("rejected"):
                 attempt_failed_at = (kind, cls, ans, e["path"], e.get("payload_b64"))
                 fatal_seen = (kind, cls, ans)
             elif e["method"] == "GET" and (ans.startswith("err") and kind == "dir"):
